@@ -529,6 +529,32 @@ impl ASN1Type {
                 parameterization: Some(Parameterization { parameters }),
                 ..
             })) => {
+                // a parameterized type that instantiates itself with the parameters it is being
+                // instantiated with (directly or through other templates) has no finite expansion
+                thread_local! {
+                    static INSTANTIATING: std::cell::RefCell<Vec<(String, Vec<Parameter>)>> =
+                        const { std::cell::RefCell::new(Vec::new()) };
+                }
+                struct Leave;
+                impl Drop for Leave {
+                    fn drop(&mut self) {
+                        INSTANTIATING.with(|s| {
+                            s.borrow_mut().pop();
+                        });
+                    }
+                }
+                if INSTANTIATING.with(|s| {
+                    s.borrow()
+                        .iter()
+                        .any(|(i, a)| i == identifier && a.as_slice() == args)
+                }) {
+                    return Err(grammar_error!(
+                        LinkerError,
+                        "Parameterized type {identifier} is instantiated recursively, which is not supported!"
+                    ));
+                }
+                INSTANTIATING.with(|s| s.borrow_mut().push((identifier.clone(), args.to_vec())));
+                let _leave = Leave;
                 let mut impl_template = ty.clone();
                 let mut impl_tlds = tlds.clone();
                 let mut table_constraint_replacements = BTreeMap::new();
